@@ -1,7 +1,7 @@
 //! C15: the real `thread_manager::run` with a fault injected into one worker (cfg-gated fault
 //! points) or a real cause of death; how long until run() returns.  One scenario per process,
 //! inside a private mount namespace (the daemon uses /var/run/clockbound/shm and chronyd's socket).
-//!   thr <point|unwritable-segment> <nth> <0 = panic | 1 = return> [<chronyd: 0 = absent | 1 = hung | 2 = answers once>
+//!   thr <point|unwritable-segment> <nth> <0 = panic | 1 = return> [<chronyd: 0 = absent | 1 = hung | 2 = answers once | 3 = answers after 150 ms>
 //!       [<delay point> <nth> <ms>]]
 //! chronyd answers once: the first request gets tracking data, every later one a well-formed reply
 //! without tracking data (so the poller reports "not responding, within the grace period").
@@ -9,7 +9,8 @@
 //! chronyd absent: the poller's request fails at once.  chronyd hung: its socket exists and queues
 //! requests nobody answers, so the poller sits in each request for the client's time-out (3 x 1 s)
 //! and is not at its mailbox when another thread dies.
-//! -> fired=<0|1> returned=<0|1> ms_after_death=<n> total_ms=<n>
+//! -> fired=<0|1> returned=<0|1> ms_after_death=<n> total_ms=<n> died_before_the_fault=<0|1>  (fired: a worker died, by the
+//!    armed fault or - seen as a drop in the number of threads - for a reason of its own)
 use crate::util::p;
 use clock_bound_d::verif_fault::{self, Fault};
 use std::time::{Duration, Instant};
@@ -28,7 +29,9 @@ pub fn run(toks: &[&str]) -> String {
     } else {
         None
     };
-    let answering = toks.len() > 3 && p::<i64>(toks[3]) == 2;
+    // 2: answers once, then refuses; 3: answers every request, each time after 150 ms (a loaded host)
+    let slow = toks.len() > 3 && p::<i64>(toks[3]) == 3;
+    let answering = toks.len() > 3 && (p::<i64>(toks[3]) == 2 || slow);
     if answering {
         let _ = std::fs::create_dir_all("/var/run/chrony");
         let _ = std::fs::remove_file("/var/run/chrony/chronyd.sock");
@@ -53,7 +56,10 @@ pub fn run(toks: &[&str]) -> String {
                     Some(p) => p.to_owned(),
                     None => continue,
                 };
-                let reply = if n == 0 {
+                if slow {
+                    std::thread::sleep(Duration::from_millis(150));
+                }
+                let reply = if n == 0 || slow {
                     let now = std::time::SystemTime::now().duration_since(std::time::UNIX_EPOCH).unwrap();
                     let t = crate::bound::mk_tracking(7, 0, now.as_secs() as i64, now.subsec_nanos(), 0, 0, 0, 4 << 25 | 1 << 23);
                     Reply { status: Status::Success, cmd: 33, sequence: req.sequence, body: ReplyBody::Tracking(t) }
@@ -80,6 +86,7 @@ pub fn run(toks: &[&str]) -> String {
     if toks.len() > 6 {
         verif_fault::arm_delay(toks[4], p(toks[5]), p(toks[6]));
     }
+    let tasks_before = ntasks();
     let t0 = Instant::now();
     let (tx, rx) = std::sync::mpsc::channel();
     std::thread::spawn(move || {
@@ -88,9 +95,19 @@ pub fn run(toks: &[&str]) -> String {
     });
     let mut fired_at: Option<Instant> = if real_cause { Some(t0) } else { None };
     let mut returned_at: Option<Instant> = None;
+    // a worker may also die for a reason of its own, before the armed fault is reached: the number of
+    // threads of this process (runner + two workers on top of what was there before) drops
+    let mut max_tasks = 0usize;
+    let mut died_otherwise = false;
     while t0.elapsed() < DEADLINE + Duration::from_secs(nth + 2) {
         if fired_at.is_none() && verif_fault::report().0 {
             fired_at = Some(Instant::now());
+        }
+        let n = ntasks();
+        max_tasks = max_tasks.max(n);
+        if fired_at.is_none() && max_tasks >= tasks_before + 3 && n < max_tasks {
+            fired_at = Some(Instant::now());
+            died_otherwise = true;
         }
         if rx.recv_timeout(Duration::from_millis(2)).is_ok() {
             returned_at = Some(Instant::now());
@@ -102,11 +119,15 @@ pub fn run(toks: &[&str]) -> String {
             }
         }
     }
-    let fired = fired_at.is_some() || verif_fault::report().0;
+    let fired = fired_at.is_some() || verif_fault::report().0;   // the armed fault, or a death of the worker's own
     let ms = match (fired_at, returned_at) {
         (Some(f), Some(r)) => r.saturating_duration_since(f).as_millis() as i64,
         (None, Some(_)) if fired => 0, // death and return inside one polling tick
         _ => -1,
     };
-    format!("fired={} returned={} ms_after_death={} total_ms={}", fired as u8, returned_at.is_some() as u8, ms, t0.elapsed().as_millis())
+    format!("fired={} returned={} ms_after_death={} total_ms={} died_before_the_fault={}", fired as u8, returned_at.is_some() as u8, ms, t0.elapsed().as_millis(), died_otherwise as u8)
+}
+
+fn ntasks() -> usize {
+    std::fs::read_dir("/proc/self/task").map(|d| d.count()).unwrap_or(0)
 }
